@@ -74,3 +74,55 @@ Proof.
 Qed.
 Print Assumptions close_tail_always.
 Print Assumptions close_reuse_iff.
+
+(* ---------------------------------------------------------------------------------------------- *)
+(* One iteration of Token::run, spelled out: while no shutdown was requested, the loop parses ONE request,
+   runs the handler ONCE on it (the script is chosen by the number of requests served so far), and closes
+   it ONCE when the handler returned a status (an Err of the handler ends the connection without close,
+   unless it is the client's abort: kind ConnectionAborted with the request's aborted flag set); only a
+   close that hands back a parser continues the loop, with exactly that parser. *)
+Theorem run_loop_iteration (norm : bytes -> bytes) (maxc : N) fuel p scripts served w :
+  stopped w = false ->
+  run_loop norm maxc (S fuel) p scripts served w =
+  match parse_request norm maxc (io_fuel w 0) p [] w with
+  | Halt o w' => (o, w')
+  | Ok (inr _) w' => (ORet, w')
+  | Ok (inl s0) w' =>
+    let rq := sreq s0 in
+    let r0 := mkR s0 (len (role_input_streams (r_role rq)) <=? 1) false false in
+    let env := EnvCanon.canon_env (r_env rq) in
+    let w1 := fold_left (fun w p => w_ev (w_ev w (fst p)) (snd p)) env
+                (w_ev (w_ev w' [100; epoch w']) [r_role rq; r_flags rq; len env; stream_code (stream s0);
+                                        if rwriteable r0 then 1 else 0]) in
+    let script := nth served scripts (last scripts []) in
+    match run_handler maxc (length script + 2) script r0 w1 with
+    | Halt o w2 => (o, w2)
+    | Ok (inl (d, c), r1) w2 =>
+        match do_close maxc r1 d c w2 with
+        | Halt o w3 => (o, w3)
+        | Ok (inl rp) w3 => run_loop norm maxc fuel rp scripts (S served) w3
+        | Ok (inr _) w3 => (ORet, w3)
+        end
+    | Ok (inr k, r1) w2 =>
+        if (k =? EK_Aborted) && raborted r1 then
+          match do_close maxc r1 EXIT_Complete EXIT_ABORT_CODE w2 with
+          | Halt o w3 => (o, w3)
+          | Ok (inl rp) w3 => run_loop norm maxc fuel rp scripts (S served) w3
+          | Ok (inr _) w3 => (ORet, w3)
+          end
+        else (ORet, w2)
+    end
+  end.
+Proof.
+  intros Hs. cbn [run_loop]. rewrite Hs.
+  destruct (parse_request norm maxc (io_fuel w 0) p [] w) as [[s0|k] w'|o w']; try reflexivity.
+  cbv zeta.
+  destruct (run_handler maxc _ _ _ _) as [[[[d c]|k] r1] w2|o w2]; try reflexivity.
+  destruct ((k =? EK_Aborted) && raborted r1); reflexivity.
+Qed.
+
+(* ... and once shutdown was requested nothing new is parsed *)
+Theorem run_loop_stopped (norm : bytes -> bytes) (maxc : N) fuel p scripts served w :
+  stopped w = true -> run_loop norm maxc (S fuel) p scripts served w = (ORet, w).
+Proof. intros Hs. cbn [run_loop]. rewrite Hs. reflexivity. Qed.
+Print Assumptions run_loop_iteration.
